@@ -447,6 +447,25 @@ theorem no_placeholder_ply_binary (L : Lex) (be : Bool) (h : Hdr) (hfmt : h.fmt 
   · rw [List.take_of_length_le (by omega), ply_binary_full L be h hfmt x hx] at hm
     cases hm; rfl
 
+theorem no_placeholder_ply_ascii (L : Lex) (h : Hdr) (vs fl : List Line) (hx : AsciiOk L h vs fl)
+    (j : Nat) (hj : j ≤ (vs ++ fl).length) (d : Option Line)
+    (hd : ∀ x, d = some x → ∃ hj' : j < (vs ++ fl).length, PartialOf x (vs ++ fl)[j]) (m : AsciiMesh)
+    (hm : readPlyAsciiBody L h ((vs ++ fl).take j ++ d.toList) = .ok m) : m = asciiMesh L h vs fl := by
+  by_cases hlt : j < (vs ++ fl).length
+  · rw [ply_ascii_prefix L h vs fl hx j hlt d (fun x hx' => (hd x hx').2)] at hm; cases hm
+  · have hjl : j = (vs ++ fl).length := by omega
+    cases d with
+    | some x => obtain ⟨hj', _⟩ := hd x rfl; omega
+    | none =>
+      rw [hjl, List.take_length, Option.toList_none, List.append_nil, ply_ascii_full L h vs fl hx] at hm
+      cases hm; rfl
+
+/-- the pinned (pre-bd55314) face loop makes no progress at end of input: the state steps to itself,
+    forever — the hang the property forbids.  (The repaired loop is `asciiFaces`: `[] ↦ error`.) -/
+theorem ascii_eof_loop_no_progress (count i : Nat) (h : i < count) :
+    oldFaceLoopStep count ([], i) = some ([], i) := by
+  simp [oldFaceLoopStep, Nat.not_le.mpr h]
+
 /-! ## non-vacuity: concrete files satisfying the hypotheses -/
 
 section examples
